@@ -244,7 +244,7 @@ type replayFile struct {
 	RunSeed   uint64   `json:"run_seed"`
 	Race      bool     `json:"race_build"`
 	StmtFiles string   `json:"stmt_files"`
-	Tape      []uint32 `json:"tape"`
+	Tape      map[string][]uint32 `json:"tape"`
 	OrigLen   int      `json:"original_tape_len"`
 	Shrinks   int      `json:"shrink_executions"`
 	LogHash   string   `json:"log_hash"`
@@ -572,7 +572,7 @@ func mainProp(prop string, cfg propCfg, tier string, seed uint64, replay, scratc
 	}
 	bySig := map[string]*replayFile{}
 	for _, r := range a.replays {
-		if o := bySig[r.Signature]; o == nil || len(r.Tape) < len(o.Tape) {
+		if o := bySig[r.Signature]; o == nil || tapeLen(r.Tape) < tapeLen(o.Tape) {
 			bySig[r.Signature] = r
 		}
 	}
@@ -585,6 +585,35 @@ func mainProp(prop string, cfg propCfg, tier string, seed uint64, replay, scratc
 	newViol := 0
 	knownHit := map[string]bool{}
 	os.MkdirAll(filepath.Join(verifDir, "replays"), 0o755)
+	// minimise the tapes of new signatures in parallel (at most 8 jobs)
+	{
+		var wg sync.WaitGroup
+		var mu sync.Mutex
+		jobs := 0
+		for _, s := range sigs {
+			if _, ok := known[s]; ok || jobs >= 8 {
+				continue
+			}
+			jobs++
+			rf := bySig[s]
+			var b build
+			for _, x := range builds {
+				if x.race == rf.Race {
+					b = x
+				}
+			}
+			wg.Add(1)
+			go func(s string, rf *replayFile, b build) {
+				defer wg.Done()
+				if m := shrinkReplay(b, rf, scratch); m != nil {
+					mu.Lock()
+					bySig[s] = m
+					mu.Unlock()
+				}
+			}(s, rf, b)
+		}
+		wg.Wait()
+	}
 	for _, s := range sigs {
 		rf := bySig[s]
 		if f, ok := known[s]; ok {
@@ -594,18 +623,18 @@ func mainProp(prop string, cfg propCfg, tier string, seed uint64, replay, scratc
 			}
 			continue
 		}
-		// verify in a fresh process before reporting
+		// minimise (one job per new signature), then verify in a fresh process before reporting
 		name := fmt.Sprintf("%s-%d-%s.json", prop, rf.RunSeed, sanitize(s))
 		path := filepath.Join(verifDir, "replays", name)
-		data, _ := json.MarshalIndent(rf, "", " ")
-		if err := os.WriteFile(path, data, 0o644); err != nil {
-			fatal2("%v", err)
-		}
 		var b build
 		for _, x := range builds {
 			if x.race == rf.Race {
 				b = x
 			}
+		}
+		data, _ := json.MarshalIndent(rf, "", " ")
+		if err := os.WriteFile(path, data, 0o644); err != nil {
+			fatal2("%v", err)
 		}
 		status, raw := verifyReplay(b, path, false)
 		if status != "reproduced" {
@@ -657,6 +686,53 @@ func mainProp(prop string, cfg propCfg, tier string, seed uint64, replay, scratc
 	fmt.Printf("%s %s: %d runs (%d non-trivial, %d distinct), %d steps, %d preemptions, %.1fs simulated, %d new violation signature(s), %d known finding(s), wall %.1fs\n",
 		prop, tier, a.runs, a.nontrivial, len(a.hashes), a.steps, a.preempts, float64(a.simUs)/1e6, newViol, len(knownHit), wall)
 	return exit
+}
+
+// shrinkReplay runs the tape minimiser for one candidate in a separate process.
+func shrinkReplay(b build, rf *replayFile, scratch string) *replayFile {
+	in := filepath.Join(scratch, "cand-"+sanitize(rf.Signature)+".json")
+	out := filepath.Join(scratch, "min-"+sanitize(rf.Signature)+".jsonl")
+	data, _ := json.Marshal(rf)
+	if os.WriteFile(in, data, 0o644) != nil {
+		return nil
+	}
+	cmd := exec.Command(b.binary, "-test.run", "^TestSim$", "-test.cpu", "1", "-test.timeout", "30m")
+	cmd.Dir = b.dir
+	cmd.Env = append(os.Environ(), "VERIF_PROP="+rf.Property, "VERIF_SHRINK="+in, "VERIF_OUT="+out, "GOMAXPROCS=2", "VERIF_SHRINK_S="+shrinkBudget(),
+		"GORACE=halt_on_error=0 log_path="+filepath.Join(b.dir, "race_shrink"))
+	if o, err := cmd.CombinedOutput(); err != nil {
+		fmt.Fprintf(os.Stderr, "vcheck: minimiser failed for %s (keeping the original tape): %v\n%s\n", rf.Signature, err, tail(string(o), 10))
+		return nil
+	}
+	f, err := os.Open(out)
+	if err != nil {
+		return nil
+	}
+	defer f.Close()
+	sc := bufio.NewScanner(f)
+	sc.Buffer(make([]byte, 1<<20), 256<<20)
+	for sc.Scan() {
+		var l line
+		if json.Unmarshal(sc.Bytes(), &l) == nil && l.Replay != nil {
+			return l.Replay
+		}
+	}
+	return nil
+}
+
+func tapeLen(t map[string][]uint32) int {
+	n := 0
+	for _, v := range t {
+		n += len(v)
+	}
+	return n
+}
+
+func shrinkBudget() string {
+	if v := os.Getenv("VERIF_SHRINK_S"); v != "" {
+		return v
+	}
+	return "60"
 }
 
 func firstLine(s string) string {
